@@ -472,6 +472,21 @@ Proof.
   inversion Hall; subst. cbn [map2 andb]. now rewrite IH by (auto; lia).
 Qed.
 
+Lemma nth_map2_andb l : forall l' i, length l' = length l ->
+  nth i (map2 andb l l') false = nth i l false && nth i l' false.
+Proof.
+  induction l as [|x l IH]; intros [|y l'] i H; cbn [length] in H; try discriminate H.
+  - destruct i; reflexivity.
+  - destruct i as [|i]; cbn [map2 nth]; [reflexivity|]. apply IH. lia.
+Qed.
+
+Lemma map2_andb_subset k : forall g, subset_mask k g = true -> map2 andb k g = k.
+Proof.
+  induction k as [|x k IH]; intros [|y g] H; cbn [subset_mask] in H; try discriminate H; [reflexivity|].
+  apply andb_true_iff in H. destruct H as [Hxy H]. cbn [map2]. rewrite IH by exact H.
+  destruct x, y; try reflexivity; discriminate Hxy.
+Qed.
+
 (* ---- norm / grid ------------------------------------------------------- *)
 Lemma fold_min_le l : forall z0,
   fold_left Z.min l z0 <= z0 /\ Forall (fun z => fold_left Z.min l z0 <= z) l.
@@ -700,7 +715,8 @@ Section Proofs.
     (if samples =? 0 then zlen keep1 else samples) - count_true keep1 <= count_true bad ->
     exists keep g', pad_phase g keep1 bad samples false = (inl keep, g') /\
       length keep = length keep1 /\
-      count_true keep = Z.max (count_true keep1) (if samples =? 0 then zlen keep1 else samples).
+      count_true keep = Z.max (count_true keep1) (if samples =? 0 then zlen keep1 else samples) /\
+      map2 andb keep (map negb bad) = keep1.
   Proof.
     intros Hs Hd. unfold C16.pad_phase.
     set (want := if samples =? 0 then zlen keep1 else samples) in *.
@@ -708,10 +724,32 @@ Section Proofs.
     - destruct (np_choice_ok (where_ bad) (want - count_true keep1)) as [sel [g' [Hc [Hnd [Hin Hl]]]]];
         [apply where_NoDup|rewrite where_length; lia|].
       rewrite Hc. exists (assign keep1 sel true), g'. split; [reflexivity|].
-      split; [apply assign_length|]. rewrite count_assign_true; [lia|exact Hnd|].
-      pose proof (subset_where_bad keep1 bad Hs) as Hall. rewrite Forall_forall in *.
-      intros i Hi. apply Hall, Hin, Hi.
-    - exists keep1, g. split; [reflexivity|]. split; [reflexivity|lia].
+      split; [apply assign_length|].
+      pose proof (subset_where_bad keep1 bad Hs) as Hall.
+      pose proof (subset_mask_length _ _ Hs) as Hlen. rewrite map_length in Hlen.
+      split.
+      + rewrite count_assign_true; [lia|exact Hnd|].
+        rewrite Forall_forall in *. intros i Hi. apply Hall, Hin, Hi.
+      + assert (Hnn : Forall (fun j => 0 <= j) sel).
+        { rewrite Forall_forall in *. intros i Hi. apply Hin, Hall in Hi. lia. }
+        apply nth_ext with (d := false) (d' := false).
+        { rewrite map2_length; [apply assign_length|rewrite map_length, assign_length; congruence]. }
+        intros i Hi. rewrite map2_length in Hi by (rewrite map_length, assign_length; congruence).
+        rewrite assign_length in Hi.
+        rewrite nth_map2_andb by (rewrite map_length, assign_length; congruence).
+        replace i with (Z.to_nat (Z.of_nat i)) at 1 by lia.
+        rewrite assign_nth by (try exact Hnn; unfold zlen; lia).
+        replace (Z.to_nat (Z.of_nat i)) with i by lia.
+        destruct (in_set (Z.of_nat i) (idx_set sel)) eqn:Es.
+        * apply in_set_spec in Es; [|exact Hnn|lia]. apply Hin in Es.
+          pose proof Es as Es'. rewrite where_In in Es'. destruct Es' as [_ Hb].
+          rewrite Forall_forall in Hall. destruct (Hall _ Es) as [_ Hk].
+          replace (Z.to_nat (Z.of_nat i)) with i in * by lia.
+          rewrite nth_map_negb by lia. rewrite Hb, Hk. reflexivity.
+        * destruct (nth i keep1 false) eqn:Ek; [|reflexivity].
+          rewrite (subset_mask_nth _ _ _ Hs Ek). reflexivity.
+    - exists keep1, g. split; [reflexivity|]. split; [reflexivity|]. split; [lia|].
+      now apply map2_andb_subset.
   Qed.
 
   Lemma good_mask_length a b : length a = length b -> length (good_mask a b) = length a.
@@ -729,6 +767,8 @@ Section Proofs.
       length keep = length a /\
       count_true keep = spec_count samples
                           (if ri then count_true (good_mask a b) else zlen a) /\
+      count_true (map2 andb keep (good_mask a b))
+      = spec_count samples (count_true (good_mask a b)) /\
       (ri = true -> subset_mask keep (good_mask a b) = true).
   Proof.
     intros Hab Hs Hguard Hreq. unfold C16.downsample_grid.
@@ -752,13 +792,16 @@ Section Proofs.
     assert (HN : zlen good = zlen a) by (unfold zlen; congruence).
     destruct ri.
     - cbn [C16.pad_phase]. exists keep1, g1. split; [reflexivity|].
-      split; [congruence|]. split; [|intros _; exact Hsub1].
-      rewrite Hc1, Had. unfold spec_count.
-      destruct (samples =? 0) eqn:E0; cbn [negb andb]; [reflexivity|].
-      destruct (samples <? count_true good) eqn:E1; lia.
+      split; [congruence|].
+      assert (Hcnt : count_true keep1 = spec_count samples (count_true good)).
+      { rewrite Hc1, Had. unfold spec_count.
+        destruct (samples =? 0) eqn:E0; cbn [negb andb]; [reflexivity|].
+        destruct (samples <? count_true good) eqn:E1; lia. }
+      split; [exact Hcnt|]. split; [|intros _; exact Hsub1].
+      rewrite map2_andb_subset by exact Hsub1. exact Hcnt.
     - specialize (Hreq eq_refl).
       assert (Hk1 : zlen keep1 = zlen a) by (unfold zlen; congruence).
-      destruct (pad_phase_ok g1 keep1 bad samples) as [keep [g2 [Hp [Hl2 Hc2]]]].
+      destruct (pad_phase_ok g1 keep1 bad samples) as [keep [g2 [Hp [Hl2 [Hc2 Hv]]]]].
       + exact Hsub1.
       + assert (Hcb : count_true bad = zlen a - count_true good).
         { unfold good, good_mask. fold bad. rewrite count_negb. unfold zlen. rewrite Hbl. lia. }
@@ -766,9 +809,14 @@ Section Proofs.
         destruct (samples =? 0) eqn:E0; cbn [negb andb]; [lia|].
         destruct (samples <? count_true good) eqn:E1; lia.
       + rewrite Hp. exists keep, g2. split; [reflexivity|]. split; [congruence|].
-        split; [|discriminate]. rewrite Hc2, Hc1, Had, Hk1. unfold spec_count.
-        destruct (samples =? 0) eqn:E0; cbn [negb andb]; [lia|].
-        destruct (samples <? count_true good) eqn:E1; lia.
+        split; [|split; [|discriminate]].
+        * rewrite Hc2, Hc1, Had, Hk1. unfold spec_count.
+          destruct (samples =? 0) eqn:E0; cbn [negb andb]; [lia|].
+          destruct (samples <? count_true good) eqn:E1; lia.
+        * replace (map2 andb keep good) with keep1 by (symmetry; exact Hv).
+          rewrite Hc1, Had. unfold spec_count.
+          destruct (samples =? 0) eqn:E0; cbn [negb andb]; [reflexivity|].
+          destruct (samples <? count_true good) eqn:E1; lia.
   Qed.
 
   (* ---- downsample_rand -------------------------------------------------- *)
@@ -840,6 +888,23 @@ Section Proofs.
       rewrite count_scatter_self; [|unfold zlen in *; lia].
       rewrite Hc, Hsub. unfold spec_count. destruct (limit =? 0) eqn:E0; lia.
     - exists arr_all, g. split; [reflexivity|]. split; [apply subset_mask_refl|reflexivity].
+  Qed.
+
+  (* Filter.update step 4 as a whole *)
+  Lemma filter_all_count g box invalid polygon manual enable limit :
+    let comb := map2 andb (map2 andb (map2 andb box invalid) polygon) manual in
+    exists m g',
+      filter_all g box invalid polygon manual enable limit = (inl m, g') /\
+      (enable = false -> m = ones box) /\
+      (enable = true ->
+       subset_mask m comb = true /\
+       count_true m = (if limit >? 0 then Z.min limit (count_true comb)
+                       else count_true comb)).
+  Proof.
+    intros comb. unfold C16.filter_all. destruct enable.
+    - destruct (limit_count g comb limit) as [m [g' [H1 [H2 H3]]]].
+      exists m, g'. split; [exact H1|]. split; [discriminate|]. intros _. split; assumption.
+    - exists (ones box), g. split; [reflexivity|]. split; [reflexivity|discriminate].
   Qed.
 
   (* ---- get_downsampled_scatter ------------------------------------------ *)
